@@ -164,11 +164,13 @@ package leader
 
 //@ iface KeyValue.Create(key, value, opts)
 //@   requires C01.key_is_group: key == e.key
+//@   requires C06+C07+C10.record_lease_is_the_configured_ttl: eachDuration(opts, e.cfg.TTL)
 //@   requires C01+C05+C02.create_payload: IDOf(value) == e.cfg.InstanceID && PrioOf(value) == e.cfg.Priority && FreshTok(TokenOf(value)) && ParseOK(value)
 //@   assumes result1 == nil ==> Own(result0) && result0 > 0 && PubTok(result0) == TokenOf(value) && PubID(result0) == IDOf(value) && OwnTok(TokenOf(value))
 
 //@ iface KeyValue.Update(key, value, rev, opts)
 //@   requires C01.key_is_group: key == e.key
+//@   requires C06+C07+C10.record_lease_is_the_configured_ttl: eachDuration(opts, e.cfg.TTL)
 //@   requires C01+C10+C05+C07+C13+C02.update_is_refresh_or_takeover: Refresh(e, value, rev) || Takeover(e, value, rev)
 //@   assumes result1 == nil ==> Own(result0) && result0 > rev && PubTok(result0) == TokenOf(value) && PubID(result0) == IDOf(value) && OwnTok(TokenOf(value))
 
